@@ -249,7 +249,7 @@ def h_array_fromfile(dtype, w, nbytes):
 def conditions(tier):
     q = tier == 'quick'
     conds = []
-    T = 200 if q else 1200
+    T = 200 if q else 450
 
     def add(cid, fn, bounds, setup=None, **params):
         conds.append(Cond(cid, fn, bounds, D, params, timeout=T, setup=setup))
